@@ -1,14 +1,1034 @@
+//! `consume-history` engine — property C16.
+//!
+//! System: `parse_block4_fields`, `FieldConsumptionTracker`, the sequential
+//! finders, `split_into_sequences`, `parse_repetitive_sequence`.
+//! 1–4 consumer threads (released one at a time by the scheduler) share one
+//! tracker; each tokenises the text into its own map instance, so every map
+//! involved has its own simulated hash keys. Reference model: the ordered log
+//! of occurrences produced by an independent line tokeniser, with a consumed
+//! flag per occurrence.
+
+use crate::mt;
+use crate::scen;
+use crate::seam;
 use crate::sim::*;
+use crate::util::*;
 use serde::{Deserialize, Serialize};
+use serde_json::{json, Value};
+use std::collections::{BTreeMap, BTreeSet, HashMap};
+use std::sync::{mpsc, Arc, Mutex};
+use swift_mt_message::parser::{
+    find_field_with_variant_sequential_constrained, find_field_with_variant_sequential_numbered,
+    get_sequence_config, parse_block4_fields, parse_repetitive_sequence, split_into_sequences,
+    FieldConsumptionTracker, SequenceConfig,
+};
+use swift_mt_message::SwiftParser;
+
+type FieldMap = HashMap<String, Vec<(String, usize)>>;
+
+#[derive(Serialize, Deserialize, Clone, Debug, PartialEq)]
+pub struct Occ {
+    pub tag: String,
+    pub content: String,
+    #[serde(default)]
+    pub blank_after: bool,
+    #[serde(default)]
+    pub pad: bool,
+}
+
+#[derive(Serialize, Deserialize, Clone, Debug, PartialEq)]
+pub enum TextMut {
+    Dup { i: usize, j: usize },
+    Swap { i: usize, j: usize },
+    /// replace the option letter of occurrence i ("" removes it)
+    Letter { i: usize, letter: String },
+    Insert { j: usize, tag: String, content: String },
+    Delete { i: usize },
+    BlankAfter { i: usize },
+    Pad { i: usize },
+    Crlf,
+}
+
+#[derive(Serialize, Deserialize, Clone, Debug, PartialEq)]
+pub enum TagRef {
+    /// map key of occurrence i (mod n)
+    KeyOf(usize),
+    /// digits prefix of the key of occurrence i (mod n)
+    BaseOf(usize),
+    Literal(String),
+}
+
+#[derive(Serialize, Deserialize, Clone, Debug, PartialEq)]
+pub enum Req {
+    Find { tag: TagRef, constraint: Option<Vec<String>> },
+    FindNumbered { tag: TagRef, constraint: Option<Vec<String>>, numbered: String },
+    Peek { tag: TagRef },
+    Take { tag: TagRef },
+    /// mark the nth already consumed occurrence (mod count) consumed again
+    Remark { nth: usize },
+    /// mark a position consumed under a tag that is not in the map
+    MarkForeign { nth: usize },
+    CloneTracker,
+    Retokenise,
+    Split { cfg: usize },
+    Repetitive { marker: TagRef },
+}
+
+#[derive(Serialize, Deserialize, Clone, Debug, PartialEq)]
+pub struct Step {
+    pub consumer: usize,
+    pub req: Req,
+}
+
 #[derive(Serialize, Deserialize, Clone, Debug)]
-pub struct Spec { pub run_seed: u64 }
+pub struct Spec {
+    pub run_seed: u64,
+    pub scenario: String,
+    pub scenario_digest: String,
+    pub e_w: u64,
+    pub e_h: u64,
+    pub paired_e_h: u64,
+    pub text_muts: Vec<TextMut>,
+    /// explicit occurrences (set by the shrinker / resolved spec); when present
+    /// the scenario draw and `text_muts` are not used
+    pub text: Option<Vec<Occ>>,
+    #[serde(default)]
+    pub crlf: bool,
+    pub consumers: usize,
+    pub script: Vec<Step>,
+    pub drain: bool,
+}
+
 pub struct C16;
+
+const LETTERS: &[&str] = &["A", "B", "C", "D", "F", "K", "L", "M", "R", "S"];
+
+pub fn split_configs() -> Vec<(String, SequenceConfig)> {
+    let mut v: Vec<(String, SequenceConfig)> = ["MT101", "MT104", "MT107", "MT110", "MT204", "default"]
+        .iter()
+        .map(|n| (n.to_string(), get_sequence_config(n)))
+        .collect();
+    v.push((
+        "marker61+C".into(),
+        SequenceConfig {
+            sequence_b_marker: "61".into(),
+            sequence_c_fields: vec!["62".into(), "64".into(), "65".into(), "86".into()],
+            has_sequence_c: true,
+        },
+    ));
+    v.push(("marker23".into(), SequenceConfig { sequence_b_marker: "23".into(), sequence_c_fields: vec![], has_sequence_c: false }));
+    v.push((
+        "marker32B+C".into(),
+        SequenceConfig { sequence_b_marker: "32B".into(), sequence_c_fields: vec!["71A".into(), "72".into()], has_sequence_c: true },
+    ));
+    v
+}
+
+/// Independent line tokeniser (the reference for T1). `None` = the text cannot
+/// be segmented unambiguously by the stated format (discarded, counted).
+pub fn ref_tokenise(b4: &str) -> Option<Vec<(String, String)>> {
+    let mut out: Vec<(String, String)> = vec![];
+    for line in b4.trim().split('\n') {
+        if let Some(rest) = line.strip_prefix(':') {
+            let c = rest.find(':')?;
+            out.push((rest[..c].to_string(), rest[c + 1..].to_string()));
+            continue;
+        }
+        match out.last_mut() {
+            Some(o) => {
+                o.1.push('\n');
+                o.1.push_str(line);
+            }
+            None => {
+                if !line.trim().is_empty() {
+                    return None;
+                }
+            }
+        }
+    }
+    for o in &mut out {
+        o.1 = o.1.trim().to_string();
+    }
+    Some(out)
+}
+
+fn render(occs: &[Occ], crlf: bool) -> String {
+    let mut s = String::from("\n");
+    for o in occs {
+        s.push_str(&format!(":{}:{}", o.tag, o.content));
+        if o.pad {
+            s.push_str("  ");
+        }
+        s.push('\n');
+        if o.blank_after {
+            s.push('\n');
+        }
+    }
+    if crlf { s.replace('\n', "\r\n") } else { s }
+}
+
+fn digits_prefix(t: &str) -> &str {
+    let n = t.find(|c: char| !c.is_ascii_digit()).unwrap_or(t.len());
+    &t[..n]
+}
+
+fn apply_text_muts(occs: &mut Vec<Occ>, muts: &[TextMut], crlf: &mut bool) {
+    for m in muts {
+        let n = occs.len();
+        match m {
+            TextMut::Crlf => *crlf = true,
+            _ if n == 0 => {}
+            TextMut::Dup { i, j } => {
+                let o = occs[i % n].clone();
+                occs.insert(j % (n + 1), o);
+            }
+            TextMut::Swap { i, j } => occs.swap(i % n, j % n),
+            TextMut::Letter { i, letter } => {
+                let t = occs[i % n].tag.clone();
+                if !t.contains('#') {
+                    occs[i % n].tag = format!("{}{}", digits_prefix(&t), letter);
+                }
+            }
+            TextMut::Insert { j, tag, content } => {
+                occs.insert(j % (n + 1), Occ { tag: tag.clone(), content: content.clone(), blank_after: false, pad: false })
+            }
+            TextMut::Delete { i } => {
+                occs.remove(i % n);
+            }
+            TextMut::BlankAfter { i } => occs[i % n].blank_after = true,
+            TextMut::Pad { i } => occs[i % n].pad = true,
+        }
+    }
+}
+
+/// What a consumer thread sends back.
+#[derive(Clone, Debug, PartialEq)]
+enum Resp {
+    Found(Option<(String, Option<String>, usize)>),
+    Peeked(Option<(String, usize)>),
+    Done,
+    Tokenised(Result<Vec<(String, String, usize)>, String>, bool),
+    Split(Result<[Vec<(String, String, usize)>; 3], String>, bool),
+    Items(Result<Vec<Vec<(String, String, usize)>>, String>, bool),
+    Panicked(String),
+}
+
+enum Cmd {
+    Find(String, Option<Vec<String>>, Option<String>),
+    Peek(String),
+    Take(String),
+    Mark(String, usize),
+    CloneTracker,
+    Retokenise,
+    Split(SequenceConfig),
+    Repetitive(String),
+    Quit,
+}
+
+fn flatten(m: &FieldMap) -> (Vec<(String, String, usize)>, bool) {
+    let mut per_tag_ordered = true;
+    let mut v: Vec<(String, String, usize)> = vec![];
+    // deterministic: collect then sort by (stamp, key, content)
+    for (k, vals) in m {
+        for w in vals.windows(2) {
+            if w[0].1 >= w[1].1 {
+                per_tag_ordered = false;
+            }
+        }
+        for (c, p) in vals {
+            v.push((k.clone(), c.clone(), *p));
+        }
+    }
+    v.sort_by(|a, b| a.2.cmp(&b.2).then(a.0.cmp(&b.0)).then(a.1.cmp(&b.1)));
+    (v, per_tag_ordered)
+}
+
+fn consumer_loop(text: String, tracker: Arc<Mutex<FieldConsumptionTracker>>, rx: mpsc::Receiver<Cmd>, tx: mpsc::Sender<Resp>) {
+    let mut map: FieldMap = HashMap::new();
+    let mut have_map = false;
+    while let Ok(cmd) = rx.recv() {
+        if matches!(cmd, Cmd::Quit) {
+            break;
+        }
+        let r = std::panic::catch_unwind(std::panic::AssertUnwindSafe(|| {
+            if !have_map && !matches!(cmd, Cmd::Retokenise) {
+                if let Ok(m) = parse_block4_fields(&text) {
+                    map = m;
+                    have_map = true;
+                }
+            }
+            match cmd {
+                Cmd::Find(base, cons, numbered) => {
+                    let mut t = tracker.lock().unwrap();
+                    let cons_refs: Option<Vec<&str>> = cons.as_ref().map(|c| c.iter().map(|s| s.as_str()).collect());
+                    let r = match numbered {
+                        Some(nt) => find_field_with_variant_sequential_numbered(&map, &base, &mut t, cons_refs, &nt),
+                        None => find_field_with_variant_sequential_constrained(&map, &base, &mut t, cons_refs.as_deref()),
+                    };
+                    Resp::Found(r)
+                }
+                Cmd::Peek(key) => {
+                    let t = tracker.lock().unwrap();
+                    let empty = vec![];
+                    let vals = map.get(&key).unwrap_or(&empty);
+                    Resp::Peeked(t.get_next_available(&key, vals).map(|(v, p)| (v.to_string(), p)))
+                }
+                Cmd::Take(key) => {
+                    let mut t = tracker.lock().unwrap();
+                    let empty = vec![];
+                    let vals = map.get(&key).unwrap_or(&empty);
+                    let r = t.get_next_available(&key, vals).map(|(v, p)| (v.to_string(), p));
+                    if let Some((_, p)) = &r {
+                        t.mark_consumed(&key, *p);
+                    }
+                    Resp::Peeked(r)
+                }
+                Cmd::Mark(tag, pos) => {
+                    tracker.lock().unwrap().mark_consumed(&tag, pos);
+                    Resp::Done
+                }
+                Cmd::CloneTracker => {
+                    let mut t = tracker.lock().unwrap();
+                    let c = t.clone();
+                    *t = c;
+                    Resp::Done
+                }
+                Cmd::Retokenise => match parse_block4_fields(&text) {
+                    Ok(m) => {
+                        let (f, ord) = flatten(&m);
+                        map = m;
+                        have_map = true;
+                        Resp::Tokenised(Ok(f), ord)
+                    }
+                    Err(e) => Resp::Tokenised(Err(format!("{e}")), true),
+                },
+                Cmd::Split(cfg) => match split_into_sequences(&map, &cfg) {
+                    Ok(ps) => {
+                        let (a, oa) = flatten(&ps.sequence_a);
+                        let (b, ob) = flatten(&ps.sequence_b);
+                        let (c, oc) = flatten(&ps.sequence_c);
+                        Resp::Split(Ok([a, b, c]), oa && ob && oc)
+                    }
+                    Err(e) => Resp::Split(Err(format!("{e}")), true),
+                },
+                Cmd::Repetitive(marker) => match parse_repetitive_sequence::<swift_mt_message::messages::MT101>(&map, &marker) {
+                    Ok(items) => {
+                        let mut ord = true;
+                        let v = items
+                            .iter()
+                            .map(|m| {
+                                let (f, o) = flatten(m);
+                                ord &= o;
+                                f
+                            })
+                            .collect();
+                        Resp::Items(Ok(v), ord)
+                    }
+                    Err(e) => Resp::Items(Err(format!("{e}")), true),
+                },
+                Cmd::Quit => Resp::Done,
+            }
+        }));
+        let resp = r.unwrap_or_else(|p| {
+            Resp::Panicked(p.downcast_ref::<String>().cloned().or(p.downcast_ref::<&str>().map(|s| s.to_string())).unwrap_or("panic".into()))
+        });
+        if tx.send(resp).is_err() {
+            break;
+        }
+    }
+}
+
+fn viol(class: &str, detail: String) -> Violation {
+    Violation { property: "C16".into(), class: class.to_string(), detail }
+}
+
+/// The reference model.
+struct Model {
+    /// occurrences in input order: (key chosen by the tokeniser, content, stamp)
+    flat: Vec<(String, String, usize)>,
+    consumed: BTreeMap<String, BTreeSet<usize>>,
+    consumed_list: Vec<(String, usize)>,
+}
+
+impl Model {
+    fn is_consumed(&self, key: &str, pos: usize) -> bool {
+        self.consumed.get(key).is_some_and(|s| s.contains(&pos))
+    }
+    fn mark(&mut self, key: &str, pos: usize) {
+        if self.consumed.entry(key.to_string()).or_default().insert(pos) {
+            self.consumed_list.push((key.to_string(), pos));
+        }
+    }
+    fn next_for_key(&self, key: &str) -> Option<usize> {
+        self.flat.iter().position(|f| f.0 == key && !self.is_consumed(key, f.2))
+    }
+    /// (index, variant letter, constraint excluded an earlier candidate)
+    fn expect_find(&self, base: &str, cons: &Option<Vec<String>>) -> (Option<(usize, Option<String>)>, bool) {
+        if let Some(i) = self.next_for_key(base) {
+            return (Some((i, None)), false);
+        }
+        let mut excluded = false;
+        for (i, f) in self.flat.iter().enumerate() {
+            if f.0.len() == base.len() + 1 && f.0.starts_with(base) && !self.is_consumed(&f.0, f.2) {
+                let l = f.0.chars().last().unwrap();
+                if l.is_ascii_uppercase() {
+                    let ls = l.to_string();
+                    if cons.as_ref().is_none_or(|c| c.contains(&ls)) {
+                        return (Some((i, Some(ls))), excluded);
+                    }
+                    excluded = true;
+                }
+            }
+        }
+        (None, excluded)
+    }
+}
+
+fn t1_check(occs: &[(String, String)], flat: &[(String, String, usize)], per_tag_ordered: bool) -> Option<Violation> {
+    if flat.len() != occs.len() {
+        return Some(viol("C16/T1 tokeniser count", format!("the text has {} field occurrences, the map holds {}", occs.len(), flat.len())));
+    }
+    for (i, (o, f)) in occs.iter().zip(flat.iter()).enumerate() {
+        let raw = &o.0;
+        let num = digits_prefix(raw);
+        let suffix = &raw[num.len()..];
+        let lettered = !raw.contains('#') && !num.is_empty() && !suffix.is_empty() && suffix.chars().all(|c| c.is_ascii_uppercase());
+        // documented as preserved: 23B/23E, 71A/71F/71G; for other lettered tags
+        // the documentation and the code disagree about which are shortened, so
+        // either spelling is accepted (DESIGN §5 C16/T1)
+        let must_keep = !lettered || num == "23" || num == "71";
+        let key_ok = f.0 == *raw || (!must_keep && f.0 == num);
+        if !key_ok {
+            return Some(viol("C16/T1 tokeniser key", format!("occurrence {i}: tag `{raw}` filed under key `{}`", f.0)));
+        }
+        if f.1 != o.1 {
+            return Some(viol("C16/T1 tokeniser content", format!("occurrence {i} (tag {raw}): content {:?} but the text has {:?}", f.1, o.1)));
+        }
+        if i > 0 && f.2 <= flat[i - 1].2 {
+            return Some(viol("C16/T1 stamps not strictly increasing", format!("occurrence {i} (tag {raw}) has stamp {} after {}", f.2, flat[i - 1].2)));
+        }
+    }
+    if !per_tag_ordered {
+        return Some(viol("C16/T1 per-tag order", "a per-tag value vector is not in input order".into()));
+    }
+    None
+}
+
+fn t4_split_check(name: &str, flat: &[(String, String, usize)], parts: &[Vec<(String, String, usize)>; 3], ord: bool) -> Option<Violation> {
+    let mut all: Vec<(String, String, usize)> = parts.iter().flatten().cloned().collect();
+    all.sort_by(|a, b| a.2.cmp(&b.2).then(a.0.cmp(&b.0)).then(a.1.cmp(&b.1)));
+    if all != flat {
+        let lost = flat.iter().filter(|f| !all.contains(f)).count();
+        let extra = all.iter().filter(|f| !flat.contains(f)).count();
+        return Some(viol(
+            "C16/T4 split is not a partition",
+            format!("config {name}: {} fields in, {} out ({lost} lost, {extra} invented or duplicated)", flat.len(), all.len()),
+        ));
+    }
+    if !ord {
+        return Some(viol("C16/T4 split per-tag order", format!("config {name}: a per-tag vector of a sequence is not in input order")));
+    }
+    let always_a = ["72", "77E", "79"];
+    let rng = |v: &Vec<(String, String, usize)>| {
+        let it = v.iter().filter(|f| !always_a.contains(&f.0.as_str())).map(|f| f.2);
+        (it.clone().min(), it.max())
+    };
+    let (_, amax) = rng(&parts[0]);
+    let (bmin, bmax) = rng(&parts[1]);
+    let (cmin, _) = rng(&parts[2]);
+    let bad = |x: Option<usize>, y: Option<usize>| matches!((x, y), (Some(a), Some(b)) if a >= b);
+    if bad(amax, bmin) || bad(bmax, cmin) || bad(amax, cmin) {
+        return Some(viol("C16/T4 split not contiguous", format!("config {name}: sequences interleave in input order (A max {amax:?}, B {bmin:?}..{bmax:?}, C min {cmin:?})")));
+    }
+    None
+}
+
+fn t4_items_check(marker: &str, flat: &[(String, String, usize)], items: &[Vec<(String, String, usize)>], ord: bool) -> Option<Violation> {
+    let start = flat.iter().position(|f| f.0 == marker);
+    let expect: Vec<(String, String, usize)> = start.map(|i| flat[i..].to_vec()).unwrap_or_default();
+    let mut all = vec![];
+    for it in items {
+        if it.is_empty() || it[0].0 != marker {
+            return Some(viol("C16/T4 repetitive item does not start with its marker", format!("marker {marker}: an item starts with {:?}", it.first().map(|f| &f.0))));
+        }
+        if it[1..].iter().any(|f| f.0 == marker) {
+            return Some(viol("C16/T4 repetitive item contains a second marker", format!("marker {marker}")));
+        }
+        if let (Some(l), Some(f)) = (all.last(), it.first()) {
+            let l: &(String, String, usize) = l;
+            if l.2 >= f.2 {
+                return Some(viol("C16/T4 repetitive items out of order", format!("marker {marker}")));
+            }
+        }
+        all.extend(it.iter().cloned());
+    }
+    if all != expect || !ord {
+        return Some(viol(
+            "C16/T4 repetitive items do not cover the suffix",
+            format!("marker {marker}: items hold {} fields, the text has {} from the first marker on", all.len(), expect.len()),
+        ));
+    }
+    None
+}
+
+fn resolve_tag(t: &TagRef, flat: &[(String, String, usize)]) -> String {
+    match t {
+        TagRef::Literal(s) => s.clone(),
+        _ if flat.is_empty() => "20".into(),
+        TagRef::KeyOf(i) => flat[i % flat.len()].0.clone(),
+        TagRef::BaseOf(i) => {
+            let k = &flat[i % flat.len()].0;
+            let d = digits_prefix(k);
+            if d.is_empty() { k.clone() } else { d.to_string() }
+        }
+    }
+}
+
+struct Phase {
+    history: Vec<String>,
+    violation: Option<Violation>,
+    discard: Option<String>,
+    counters: BTreeMap<String, u64>,
+    variant_responses: u64,
+    consuming_successes: usize,
+    n: usize,
+}
+
+/// One operations phase: consumers on fresh threads under hash entropy `e_h`.
+fn run_phase(ctx: &Arc<seam::RunCtx>, e_h: u64, text: &str, occs: &[(String, String)], spec: &Spec, rotate: usize) -> Phase {
+    let mut ph = Phase { history: vec![], violation: None, discard: None, counters: BTreeMap::new(), variant_responses: 0, consuming_successes: 0, n: occs.len() };
+    ctx.rekey_entropy(e_h);
+    let k = spec.consumers.clamp(1, 4);
+    let tracker = Arc::new(Mutex::new(FieldConsumptionTracker::new()));
+    let mut cmd_tx = vec![];
+    let mut resp_rx = vec![];
+    let mut handles = vec![];
+    for _ in 0..k {
+        let (ctx_c, text_c, tr) = (ctx.clone(), text.to_string(), tracker.clone());
+        let (tx, rx) = mpsc::channel::<Cmd>();
+        let (rtx, rrx) = mpsc::channel::<Resp>();
+        cmd_tx.push(tx);
+        resp_rx.push(rrx);
+        handles.push(std::thread::spawn(move || {
+            let _a = seam::attach(&ctx_c);
+            consumer_loop(text_c, tr, rx, rtx);
+        }));
+    }
+    let mut count = |ph: &mut Phase, key: &str| *ph.counters.entry(key.to_string()).or_insert(0) += 1;
+    let call = |c: usize, cmd: Cmd| -> Resp {
+        let c = (c + rotate) % k;
+        if cmd_tx[c].send(cmd).is_err() {
+            return Resp::Panicked("consumer thread gone".into());
+        }
+        resp_rx[c].recv().unwrap_or(Resp::Panicked("consumer thread gone".into()))
+    };
+
+    // T1 on consumer 0's map instance
+    let flat = match call(0, Cmd::Retokenise) {
+        Resp::Tokenised(Ok(f), ord) => {
+            if let Some(v) = t1_check(occs, &f, ord) {
+                ph.violation = Some(v);
+            }
+            f
+        }
+        Resp::Tokenised(Err(e), _) => {
+            ph.violation = Some(viol("C16/T1 tokeniser rejects a segmentable text", format!("parse_block4_fields: {e}")));
+            vec![]
+        }
+        Resp::Panicked(p) => {
+            ph.discard = Some(format!("panic in tokeniser: {}", p.chars().take(80).collect::<String>()));
+            vec![]
+        }
+        _ => vec![],
+    };
+    ph.history.push(format!("tokenised n={} digest={}", flat.len(), hex(fnv_str(&format!("{flat:?}")))));
+    let mut model = Model { flat: flat.clone(), consumed: BTreeMap::new(), consumed_list: vec![] };
+    let cfgs = split_configs();
+
+    let mut script: Vec<Step> = spec.script.clone();
+    if spec.drain {
+        // drain: every key until exhausted (+1 request that must return None)
+        let mut keys: Vec<String> = flat.iter().map(|f| f.0.clone()).collect();
+        keys.sort();
+        keys.dedup();
+        for (ki, key) in keys.iter().enumerate() {
+            let cnt = flat.iter().filter(|f| &f.0 == key).count();
+            for _ in 0..=cnt {
+                script.push(Step { consumer: ki, req: Req::Find { tag: TagRef::Literal(key.clone()), constraint: None } });
+            }
+        }
+    }
+    let script_len = spec.script.len();
+    for (si, st) in script.iter().enumerate() {
+        if ph.violation.is_some() || ph.discard.is_some() {
+            break;
+        }
+        let c = st.consumer % k;
+        let draining = si >= script_len;
+        match &st.req {
+            Req::Find { tag, constraint } | Req::FindNumbered { tag, constraint, .. } => {
+                let base = resolve_tag(tag, &flat);
+                let numbered = if let Req::FindNumbered { numbered, .. } = &st.req { Some(numbered.clone()) } else { None };
+                let (exp, excluded) = model.expect_find(&base, constraint);
+                let got = call(c, Cmd::Find(base.clone(), constraint.clone(), numbered.clone()));
+                let Resp::Found(got) = got else {
+                    if let Resp::Panicked(p) = got {
+                        ph.discard = Some(format!("panic in find: {}", p.chars().take(80).collect::<String>()));
+                    }
+                    break;
+                };
+                count(&mut ph, "ops.find");
+                if excluded {
+                    count(&mut ph, "probe.constraint_excluded_a_candidate");
+                }
+                if base == "50" && constraint.is_some() {
+                    count(&mut ph, "probe.field50_routing_branch");
+                }
+                let expv = exp.as_ref().map(|(i, l)| (flat[*i].1.clone(), l.clone(), flat[*i].2));
+                ph.history.push(format!("{si} c{c} find({base},{constraint:?}{}) -> {}", numbered.map(|n| format!(",{n}")).unwrap_or_default(), match &got { Some((_, l, p)) => format!("stamp {p} var {l:?}"), None => "None".into() }));
+                if got != expv {
+                    let what = match (&expv, &got) {
+                        (Some(_), None) => "an unconsumed occurrence was not returned (lost)",
+                        (None, Some(_)) => "an occurrence was returned although none is available (duplicated or invented)",
+                        (Some(e), Some(g)) if g.2 != e.2 => "a different occurrence than the earliest unconsumed one was returned (reordered)",
+                        _ => "content or option letter of the returned occurrence is wrong",
+                    };
+                    ph.violation = Some(viol(
+                        if draining { "C16/T3 drain" } else { "C16/T2 sequential consumption" },
+                        format!("step {si}: find(base={base}, constraint={constraint:?}) expected {:?}, got {:?}: {what}", expv.as_ref().map(|e| (e.2, &e.1, &e.0)), got.as_ref().map(|g| (g.2, &g.1, &g.0))),
+                    ));
+                    break;
+                }
+                match &exp {
+                    Some((i, l)) => {
+                        let key = flat[*i].0.clone();
+                        model.mark(&key, flat[*i].2);
+                        ph.consuming_successes += 1;
+                        if l.is_some() {
+                            ph.variant_responses += 1;
+                            count(&mut ph, "probe.resp_variant");
+                        } else {
+                            count(&mut ph, "probe.resp_exact");
+                        }
+                    }
+                    None => count(&mut ph, "probe.resp_none"),
+                }
+            }
+            Req::Peek { tag } | Req::Take { tag } => {
+                let key = resolve_tag(tag, &flat);
+                let take = matches!(st.req, Req::Take { .. });
+                let exp = model.next_for_key(&key).map(|i| (flat[i].1.clone(), flat[i].2));
+                let got = call(c, if take { Cmd::Take(key.clone()) } else { Cmd::Peek(key.clone()) });
+                let Resp::Peeked(got) = got else {
+                    if let Resp::Panicked(p) = got {
+                        ph.discard = Some(format!("panic in tracker: {}", p.chars().take(80).collect::<String>()));
+                    }
+                    break;
+                };
+                count(&mut ph, if take { "ops.take" } else { "ops.peek" });
+                ph.history.push(format!("{si} c{c} {}({key}) -> {:?}", if take { "take" } else { "peek" }, got.as_ref().map(|g| g.1)));
+                if got != exp {
+                    ph.violation = Some(viol("C16/T2 tracker next-available", format!("step {si}: get_next_available({key}) expected {exp:?}, got {got:?}")));
+                    break;
+                }
+                if take {
+                    if let Some((_, p)) = exp {
+                        model.mark(&key, p);
+                        ph.consuming_successes += 1;
+                    }
+                }
+            }
+            Req::Remark { nth } => {
+                if !model.consumed_list.is_empty() {
+                    let (key, pos) = model.consumed_list[nth % model.consumed_list.len()].clone();
+                    call(c, Cmd::Mark(key.clone(), pos));
+                    count(&mut ph, "ops.remark");
+                    ph.history.push(format!("{si} c{c} remark({key},{pos})"));
+                }
+            }
+            Req::MarkForeign { nth } => {
+                if !flat.is_empty() {
+                    let pos = flat[nth % flat.len()].2;
+                    call(c, Cmd::Mark("ZZ9".into(), pos));
+                    model.mark("ZZ9", pos);
+                    count(&mut ph, "ops.mark_foreign");
+                    ph.history.push(format!("{si} c{c} mark_foreign(ZZ9,{pos})"));
+                }
+            }
+            Req::CloneTracker => {
+                call(c, Cmd::CloneTracker);
+                count(&mut ph, "probe.clone_and_continue");
+                ph.history.push(format!("{si} c{c} clone"));
+            }
+            Req::Retokenise => {
+                if let Resp::Tokenised(r, ord) = call(c, Cmd::Retokenise) {
+                    count(&mut ph, "ops.retokenise");
+                    match r {
+                        Ok(f) => {
+                            ph.history.push(format!("{si} c{c} retokenise -> {}", hex(fnv_str(&format!("{f:?}")))));
+                            if let Some(v) = t1_check(occs, &f, ord) {
+                                ph.violation = Some(v);
+                            } else if f != flat {
+                                ph.violation = Some(viol("C16/T5 tokeniser result differs between map instances", format!("step {si}: a second tokenisation of the same text gave a different field list")));
+                            }
+                        }
+                        Err(e) => ph.violation = Some(viol("C16/T1 tokeniser rejects a segmentable text", format!("parse_block4_fields: {e}"))),
+                    }
+                }
+            }
+            Req::Split { cfg } => {
+                let (name, cf) = &cfgs[cfg % cfgs.len()];
+                match call(c, Cmd::Split(cf.clone())) {
+                    Resp::Split(Ok(parts), ord) => {
+                        count(&mut ph, "ops.split");
+                        if !parts[1].is_empty() {
+                            count(&mut ph, "probe.split_sequence_b_nonempty");
+                        }
+                        if !parts[2].is_empty() {
+                            count(&mut ph, "probe.split_sequence_c_nonempty");
+                        }
+                        let asg: Vec<String> = parts.iter().map(|p| p.iter().map(|f| f.2.to_string()).collect::<Vec<_>>().join(",")).collect();
+                        ph.history.push(format!("{si} c{c} split({name}) -> A[{}] B[{}] C[{}]", asg[0], asg[1], asg[2]));
+                        if let Some(v) = t4_split_check(name, &flat, &parts, ord) {
+                            ph.violation = Some(v);
+                        }
+                    }
+                    Resp::Split(Err(e), _) => ph.violation = Some(viol("C16/T4 split fails", format!("config {name}: {e}"))),
+                    Resp::Panicked(p) => ph.discard = Some(format!("panic in split: {}", p.chars().take(80).collect::<String>())),
+                    _ => {}
+                }
+            }
+            Req::Repetitive { marker } => {
+                let m = resolve_tag(marker, &flat);
+                match call(c, Cmd::Repetitive(m.clone())) {
+                    Resp::Items(Ok(items), ord) => {
+                        count(&mut ph, "ops.repetitive");
+                        if items.len() > 1 {
+                            count(&mut ph, "probe.repetitive_multiple_items");
+                        }
+                        ph.history.push(format!("{si} c{c} repetitive({m}) -> {:?}", items.iter().map(|i| i.len()).collect::<Vec<_>>()));
+                        if let Some(v) = t4_items_check(&m, &flat, &items, ord) {
+                            ph.violation = Some(v);
+                        }
+                    }
+                    Resp::Items(Err(e), _) => ph.violation = Some(viol("C16/T4 repetitive parse fails", format!("marker {m}: {e}"))),
+                    Resp::Panicked(p) => ph.discard = Some(format!("panic in repetitive: {}", p.chars().take(80).collect::<String>())),
+                    _ => {}
+                }
+            }
+        }
+    }
+    // T3: after the drain every occurrence was handed out exactly once
+    if spec.drain && ph.violation.is_none() && ph.discard.is_none() {
+        let handed: usize = flat.iter().filter(|f| model.is_consumed(&f.0, f.2)).count();
+        if handed != flat.len() || ph.consuming_successes != flat.len() {
+            ph.violation = Some(viol("C16/T3 drain", format!("{} occurrences, {} handed out in {} successful responses", flat.len(), handed, ph.consuming_successes)));
+        }
+    }
+    for tx in &cmd_tx {
+        let _ = tx.send(Cmd::Quit);
+    }
+    for h in handles {
+        let _ = h.join();
+    }
+    ph
+}
+
 impl Engine for C16 {
     type Spec = Spec;
     const ID: &'static str = "consume-history";
     const PROPERTY: &'static str = "C16";
-    fn plan(_env: &Env, base: u64, i: u64) -> Spec { Spec { run_seed: base ^ i } }
-    fn execute(_env: &Env, _spec: &Spec) -> (Outcome, Option<Spec>) { (Outcome::default(), None) }
-    fn shrink_candidates(_spec: &Spec) -> Vec<Spec> { vec![] }
-    fn describe(_spec: &Spec) -> serde_json::Value { serde_json::Value::Null }
+
+    fn plan(env: &Env, base: u64, i: u64) -> Spec {
+        let nf = env.scenarios.len() as u64;
+        let sc = &env.scenarios[(i % nf) as usize];
+        let run_seed = derive(base, "consume/run", i);
+        let mut w = Sm(derive(run_seed, "workload", 0));
+        let mut s = Sm(derive(run_seed, "sched", 0));
+        // swarm knobs
+        let n_muts = *w.pick(&[0usize, 0, 1, 2, 3, 4]);
+        let mut text_muts = vec![];
+        for _ in 0..n_muts {
+            let (a, b) = (w.below(1000), w.below(1000));
+            text_muts.push(match w.below(16) {
+                0..=2 => TextMut::Dup { i: a, j: b },
+                3 | 4 => TextMut::Swap { i: a, j: b },
+                5..=8 => TextMut::Letter { i: a, letter: (*w.pick(&["A", "B", "C", "D", "F", "K", "L", ""])).to_string() },
+                9 | 10 => TextMut::Insert {
+                    j: b,
+                    tag: (*w.pick(&["99Z", "50K", "50A", "50F", "59", "59A", "21", "23E", "72", "79", "86", "61", "32B", "71F", "12"])).to_string(),
+                    content: (*w.pick(&["X: Y", "/ACC/1:2:3", "LINE1\nLINE2", "0,", "A\n-B"])).to_string(),
+                },
+                11 | 12 => TextMut::Delete { i: a },
+                13 => TextMut::BlankAfter { i: a },
+                14 => TextMut::Pad { i: a },
+                _ => TextMut::Crlf,
+            });
+        }
+        let consumers = 1 + s.below(4);
+        let n_steps = 8 + s.below(72);
+        let mut script = vec![];
+        for _ in 0..n_steps {
+            let tag = match w.below(10) {
+                0..=4 => TagRef::BaseOf(w.below(1000)),
+                5..=7 => TagRef::KeyOf(w.below(1000)),
+                8 => TagRef::Literal((*w.pick(&["50", "59", "52", "57", "21", "32", "71", "23", "60", "62"])).to_string()),
+                _ => TagRef::Literal("99".into()),
+            };
+            let constraint = if w.chance(1, 2) {
+                None
+            } else {
+                let k = 1 + w.below(4);
+                Some((0..k).map(|_| (*w.pick(LETTERS)).to_string()).collect())
+            };
+            let req = match w.below(40) {
+                0..=21 => Req::Find { tag, constraint },
+                22..=24 => Req::FindNumbered { tag, constraint, numbered: format!("50#{}", 1 + w.below(2)) },
+                25 | 26 => Req::Peek { tag },
+                27..=29 => Req::Take { tag: TagRef::KeyOf(w.below(1000)) },
+                30 => Req::Remark { nth: w.below(1000) },
+                31 => Req::MarkForeign { nth: w.below(1000) },
+                32 => Req::CloneTracker,
+                33 => Req::Retokenise,
+                34..=37 => Req::Split { cfg: w.below(64) },
+                _ => Req::Repetitive { marker: if w.chance(1, 2) { TagRef::Literal((*w.pick(&["21", "61", "20", "23", "32B"])).to_string()) } else { TagRef::KeyOf(w.below(1000)) } },
+            };
+            script.push(Step { consumer: s.below(consumers), req });
+        }
+        Spec {
+            run_seed,
+            scenario: sc.rel.clone(),
+            scenario_digest: hex(sc.digest),
+            e_w: derive(run_seed, "entropy/draw", 0),
+            e_h: derive(run_seed, "entropy/hash", 0),
+            paired_e_h: derive(run_seed, "entropy/hash", 1),
+            text_muts,
+            text: None,
+            crlf: false,
+            consumers,
+            script,
+            drain: true,
+        }
+    }
+
+    fn execute(env: &Env, spec: &Spec) -> (Outcome, Option<Spec>) {
+        let mut out = Outcome::default();
+        out.log.push(format!(
+            "run_seed={} engine=consume-history scenario={} e_w={} e_h={} paired_e_h={} consumers={} steps={} text_muts={:?} explicit_text={}",
+            spec.run_seed, spec.scenario, hex(spec.e_w), hex(spec.e_h), hex(spec.paired_e_h), spec.consumers, spec.script.len(), spec.text_muts, spec.text.is_some()
+        ));
+        let sc = if spec.text.is_none() {
+            match scen::find(&env.scenarios, &spec.scenario) {
+                Some(s) => Some(s.clone()),
+                None => {
+                    out.harness_error = Some(format!("scenario {} not found", spec.scenario));
+                    return (out, None);
+                }
+            }
+        } else {
+            None
+        };
+        let clock = ClockCfg { start_ns: seam::ns_of(2026, 1, 1, 0, 0, 0, 0) + (spec.run_seed % 1_000_000) as i64 * 86_400_000_000, ..ClockCfg::plain() };
+        let ctx = clock.ctx(spec.e_w);
+        let ctx2 = ctx.clone();
+        let spec2 = spec.clone();
+        let o2 = out.clone();
+        let res = on_fresh_thread(move || {
+            let mut out = o2;
+            let _a = seam::attach(&ctx2);
+            // generation phase (under E_w)
+            let (mut occs, mut crlf) = (vec![], spec2.crlf);
+            match (&spec2.text, &sc) {
+                (Some(t), _) => occs = t.clone(),
+                (None, Some(sc)) => {
+                    let g = match datafake_rs::DataGenerator::from_value(sc.value.clone()).map_err(|e| format!("{e:?}")).and_then(|g| g.generate().map_err(|e| format!("{e:?}"))) {
+                        Ok(g) => g,
+                        Err(e) => {
+                            out.discard = Some(format!("generation failed: {}", e.chars().take(60).collect::<String>()));
+                            return (out, None);
+                        }
+                    };
+                    let text = match std::panic::catch_unwind(std::panic::AssertUnwindSafe(|| mt::json_to_text(&sc.mt, &g))) {
+                        Ok(Ok(t)) => t,
+                        _ => {
+                            out.discard = Some("draw does not publish".into());
+                            return (out, None);
+                        }
+                    };
+                    let b4 = SwiftParser::extract_block(&text, 4).ok().flatten().unwrap_or_default();
+                    // the envelope terminator is not part of the field list
+                    let b4 = b4.trim_end().strip_suffix("\n-").unwrap_or(b4.trim_end()).to_string();
+                    match ref_tokenise(&b4) {
+                        Some(v) => occs = v.into_iter().map(|(t, c)| Occ { tag: t, content: c, blank_after: false, pad: false }).collect(),
+                        None => {
+                            out.discard = Some("published block 4 not segmentable by the reference tokeniser".into());
+                            return (out, None);
+                        }
+                    }
+                }
+                _ => {}
+            }
+            apply_text_muts(&mut occs, &spec2.text_muts, &mut crlf);
+            let text = render(&occs, crlf);
+            let Some(expected) = ref_tokenise(&text) else {
+                out.discard = Some("mutated text not segmentable by the reference tokeniser".into());
+                return (out, None);
+            };
+            if expected.len() >= 65_536 {
+                out.discard = Some("more than 65535 fields".into());
+                return (out, None);
+            }
+            out.content_digest = fnv_str(&text);
+            out.log.push(format!("text {} fields={} bytes={} crlf={crlf}", hex(out.content_digest), expected.len(), text.len()));
+            let mut resolved = spec2.clone();
+            resolved.text = Some(occs.clone());
+            resolved.text_muts = vec![];
+            resolved.crlf = crlf;
+
+            // operations phase A, then the paired phase B under a second hash entropy
+            let a = run_phase(&ctx2, spec2.e_h, &text, &expected, &spec2, 0);
+            for l in &a.history {
+                out.log.push(format!("A {l}"));
+            }
+            for (k, v) in &a.counters {
+                out.count(k, *v);
+            }
+            if let Some(d) = a.discard {
+                out.discard = Some(d);
+                return (out, Some(resolved));
+            }
+            if let Some(v) = a.violation {
+                out.violation = Some(v);
+                return (out, Some(resolved));
+            }
+            let b = run_phase(&ctx2, spec2.paired_e_h, &text, &expected, &spec2, 1);
+            out.count("paired_runs", 1);
+            if let Some(d) = b.discard {
+                out.discard = Some(d);
+                return (out, Some(resolved));
+            }
+            if let Some(mut v) = b.violation {
+                v.detail = format!("(in the paired execution under the second hash entropy) {}", v.detail);
+                out.violation = Some(v);
+                return (out, Some(resolved));
+            }
+            if a.history != b.history {
+                let at = a.history.iter().zip(b.history.iter()).position(|(x, y)| x != y).unwrap_or(a.history.len().min(b.history.len()));
+                let differs = true;
+                if differs {
+                    let kind = if a.history.get(at).is_some_and(|l| l.contains("split(")) { "split" } else { "responses" };
+                    out.violation = Some(viol(
+                        &format!("C16/T5 {kind} depend on hash order"),
+                        format!("same text and request script under two hash entropies: first difference at history line {at}: `{}` vs `{}`", a.history.get(at).cloned().unwrap_or_default(), b.history.get(at).cloned().unwrap_or_default()),
+                    ));
+                    return (out, Some(resolved));
+                }
+            }
+            // non-trivial: a variant response and a repeated base tag
+            let mut bases: BTreeMap<String, usize> = BTreeMap::new();
+            for (t, _) in &expected {
+                *bases.entry(digits_prefix(t).to_string()).or_insert(0) += 1;
+            }
+            let repeated = bases.values().any(|n| *n >= 2);
+            let mut variants_of: BTreeMap<String, BTreeSet<String>> = BTreeMap::new();
+            for (t, _) in &expected {
+                variants_of.entry(digits_prefix(t).to_string()).or_default().insert(t.clone());
+            }
+            if variants_of.values().any(|s| s.len() >= 2) {
+                out.count("probe.coexisting_variants_of_one_base", 1);
+            }
+            out.nontrivial = a.variant_responses > 0 && repeated;
+            out.count("requests", (a.history.len() as u64).saturating_sub(1));
+            out.count("occurrences", a.n as u64);
+            (out, Some(resolved))
+        });
+        let (mut out, resolved) = match res {
+            Ok(x) => x,
+            Err(p) => {
+                out.discard = Some(format!("panic in harness thread: {}", p.chars().take(80).collect::<String>()));
+                (out, None)
+            }
+        };
+        out.absorb_ctx(&ctx);
+        out.sim_ns = 0;
+        let shape: Vec<String> = spec.script.iter().map(|s| format!("{}{}", s.consumer, match &s.req { Req::Find { constraint, .. } => if constraint.is_some() { "Fc" } else { "F" }, Req::FindNumbered { .. } => "N", Req::Peek { .. } => "P", Req::Take { .. } => "T", Req::Remark { .. } => "R", Req::MarkForeign { .. } => "M", Req::CloneTracker => "C", Req::Retokenise => "K", Req::Split { .. } => "S", Req::Repetitive { .. } => "I" })).collect();
+        out.shape_digest = fnv_str(&shape.join(" "));
+        out.count(&format!("consumers.{}", spec.consumers.clamp(1, 4)), 1);
+        (out, resolved)
+    }
+
+    fn shrink_candidates(spec: &Spec) -> Vec<Spec> {
+        let mut v = vec![];
+        if spec.consumers > 1 {
+            let mut s = spec.clone();
+            s.consumers = 1;
+            v.push(s);
+        }
+        if spec.drain {
+            let mut s = spec.clone();
+            s.drain = false;
+            v.push(s);
+        }
+        // halves, then single steps
+        let n = spec.script.len();
+        if n > 1 {
+            let mut s = spec.clone();
+            s.script.truncate(n / 2);
+            v.push(s);
+            let mut s = spec.clone();
+            s.script.drain(..n / 2);
+            v.push(s);
+        }
+        for k in (0..n).rev() {
+            let mut s = spec.clone();
+            s.script.remove(k);
+            v.push(s);
+        }
+        for k in 0..spec.text_muts.len() {
+            let mut s = spec.clone();
+            s.text_muts.remove(k);
+            v.push(s);
+        }
+        if let Some(t) = &spec.text {
+            if spec.crlf {
+                let mut s = spec.clone();
+                s.crlf = false;
+                v.push(s);
+            }
+            let m = t.len();
+            if m > 1 {
+                let mut s = spec.clone();
+                s.text = Some(t[..m / 2].to_vec());
+                v.push(s);
+                let mut s = spec.clone();
+                s.text = Some(t[m / 2..].to_vec());
+                v.push(s);
+            }
+            for k in (0..m).rev() {
+                let mut s = spec.clone();
+                let mut tt = t.clone();
+                tt.remove(k);
+                s.text = Some(tt);
+                v.push(s);
+            }
+            for k in 0..m {
+                if t[k].content.len() > 1 {
+                    let mut s = spec.clone();
+                    let mut tt = t.clone();
+                    tt[k].content = "X".into();
+                    tt[k].blank_after = false;
+                    tt[k].pad = false;
+                    s.text = Some(tt);
+                    v.push(s);
+                }
+            }
+        }
+        v
+    }
+
+    fn describe(spec: &Spec) -> Value {
+        json!({"scenario": spec.scenario, "e_w": hex(spec.e_w), "e_h": hex(spec.e_h), "paired_e_h": hex(spec.paired_e_h),
+               "text_muts": spec.text_muts, "consumers": spec.consumers, "script_steps": spec.script.len(),
+               "first_steps": spec.script.iter().take(6).collect::<Vec<_>>()})
+    }
 }
